@@ -136,6 +136,19 @@ def gen_cases(rng, tier):
         ts = sorted(set(t for t in ts if t not in (TO,)))
         arrs = [(t, rng.choice([100, 180, 183, 200, 200, 302, 486, 600]), rng.choice("ab")) for t in ts]
         cases.append(_case("mix%d" % i, kind, rel, arrs))
+    # over a reliable transport nothing is retransmitted, so the transaction does not depend on when and how the caller waits: a caller
+    # that calls receive() late, or in slices (a timeout / select! around it), sees the timeout 64*T1 after the SEND and every response
+    k2 = 0
+    for kind in ("inv", "ni"):
+        for mode in ("late:10000", "late:31000", "repoll:5000", "repoll:700"):
+            for arrs in ([], [(40000, 200, "a")], [(20000, 180, "a"), (50000, 200, "a")] if kind == "inv" else [(20000, 100, "-"), (31000, 200, "a")], [(12000, 486, "a")], [(33000, 486, "a")]):
+                if mode.startswith("late") and arrs and arrs[0][0] < int(mode.split(":")[1]):
+                    continue      # responses that are in before the caller looks are handed over when it does: instants differ, not judged here
+                c = _case("lp%d" % k2, kind, 1, arrs); k2 += 1
+                while len(c) < 13:
+                    c.append("")
+                c[12] = mode
+                cases.append(c)
     # a caller that waits with receive_final(): however many provisional responses come first (a peer answers every copy of the request
     # with its 100 Trying, or sends 100 and then 183), the one final response is what it gets
     k = 0
